@@ -614,43 +614,43 @@ def i_UDIV(i, fmap):
 
 def i_SMADDL(i, fmap):
     fmap[pc] = fmap[pc] + i.length
-    _x = fmap(i.a + (i.n ** i.m))
-    _x.sf = True
-    fmap[i.d] = _x
+    # signed product: the flag goes on copies of the multiplicands (fmap(r)
+    # may be the register object shared by the whole module)
+    n, m = fmap(i.n).signed(), fmap(i.m).signed()
+    _x = fmap(i.a) + (n ** m)
+    fmap[i.d] = _x.signed()
 
 
 def i_SMSUBL(i, fmap):
     fmap[pc] = fmap[pc] + i.length
-    _x = fmap(i.a - (i.n ** i.m))
-    _x.sf = True
-    fmap[i.d] = _x
+    n, m = fmap(i.n).signed(), fmap(i.m).signed()
+    _x = fmap(i.a) - (n ** m)
+    fmap[i.d] = _x.signed()
 
 
 def i_UMADDL(i, fmap):
     fmap[pc] = fmap[pc] + i.length
-    _x = fmap(i.a + (i.n ** i.m))
-    _x.sf = False
-    fmap[i.d] = _x
+    n, m = fmap(i.n).unsigned(), fmap(i.m).unsigned()
+    _x = fmap(i.a).unsigned() + (n ** m)
+    fmap[i.d] = _x.unsigned()
 
 
 def i_UMSUBL(i, fmap):
     fmap[pc] = fmap[pc] + i.length
-    _x = fmap(i.a - (i.n ** i.m))
-    _x.sf = False
-    fmap[i.d] = _x
+    n, m = fmap(i.n).unsigned(), fmap(i.m).unsigned()
+    _x = fmap(i.a).unsigned() - (n ** m)
+    fmap[i.d] = _x.unsigned()
 
 
 def i_SMULH(i, fmap):
     fmap[pc] = fmap[pc] + i.length
-    result = fmap(i.n ** i.m)
-    result.sf = True
+    result = fmap(i.n).signed() ** fmap(i.m).signed()
     fmap[i.d] = result[64:128]
 
 
 def i_UMULH(i, fmap):
     fmap[pc] = fmap[pc] + i.length
-    result = fmap(i.n ** i.m)
-    result.sf = False
+    result = fmap(i.n).unsigned() ** fmap(i.m).unsigned()
     fmap[i.d] = result[64:128]
 
 
